@@ -89,6 +89,16 @@ def run(ctx):
     first = norm(kw[0].value.values[0].value) if ok else ''
     got = [a for a in walk_shallow(cf) if isinstance(a, ast.Assign) and dotted(a.targets[0]) == first]
     ok = ok and bool(got) and "kwargs.get('optimization'" in norm(got[0].value)
+    # the marker is applied on every path: no return of the beartype variant may be reached without the store
+    from sa.flow import Flow
+    unmarked = []
+    Flow(lambda node: ['marked'] if (isinstance(node, ast.Assign) and norm(node.targets[0]) == "kwargs['optimization']") else [],
+         mode='must', on_exit=lambda node, kind, st: unmarked.append(node) if kind in ('return', 'fallthrough') and 'marked' not in st else None).run(cf)
+    ctx.ob('C16.R4', 'marker:on-every-path', cm.where(unmarked[0]) if unmarked and unmarked[0] is not None else cm.where(cf),
+           'every return of cache_from_source_beartype is preceded by the marker store: the path it returns is used for '
+           'reading as well as for writing bytecode', not unmarked,
+           f'the return at line {getattr(unmarked[0], "lineno", "?")} yields the un-marked path (hooked code would read and '
+           f'write the cache file of un-hooked code)' if unmarked else '')
     ctx.ob('C16.R4', 'marker:appended-to-interpreter-tag', cm.where(cf),
            'the interpreter\'s optimisation tag is kept as a prefix of the beartype marker', ok, norm(kw[0])[:120] if kw else '')
     marker = ctx.folder.value('beartype._data.claw.dataclawmagic', 'OPTIMIZATION_MARKER_BEARTYPE')
